@@ -343,10 +343,18 @@ func (e *c19env) execC19(p c19plan) (o c19outcome) {
 				return
 			}
 		}
+		// everything in D that the user did not put there was created by goag: a leftover the last
+		// invocation does not call for (e.g. a temp file of an interrupted earlier run) is a stale goag file
+		extra := make([]string, 0)
 		for n := range snap {
 			if _, u := user[n]; !u && !e.owned[n] {
-				o.probes["unowned_extra_files"]++
+				extra = append(extra, n)
 			}
+		}
+		sort.Strings(extra)
+		if len(extra) > 0 {
+			viol("hist:"+extra[0]+":stale:"+e.invClass(i), extra[0]+" was created by an earlier generator run and is not part of a fresh run of this invocation")
+			return
 		}
 		if tornPending {
 			o.probes["torn_file_later_overwritten"]++
